@@ -75,6 +75,8 @@ def handleFault (l : Line) : List Verdict :=
     let successStatus := (handler == "logoutlocal" && status == 204) || (handler == "logout" && status == 302) || (handler == "frontchannel" && status == 200)
     let cleanStatus : Nat := match handler with | "fwdauth" => 204 | "session" => 200 | "refresh" => 200 | "logoutlocal" => 204 | "logout" => 302 | "frontchannel" => 200 | _ => 200
     let viol : List (String × String) :=
+      (if wrote && (upauth.drop 2).toString != pre.atok && (upauth.drop 2).toString != post.atok then
+        [("C01.token_not_of_session", s!"{handler}: the upstream received {upauth.drop 2}, but the session held {pre.atok} before the request and holds {if post.atok.isEmpty then "nothing" else post.atok} after it: a token that no stored session ever held (fault: {fcount} x '{flabel}')")] else []) ++
       (if wrote && !readOk then [("C11.token_without_read", "a token was forwarded although no store read of the session succeeded in this request")] else []) ++
       (if wrote && expiredPre && (upauth.drop 2).toString == pre.atok then [("C11.stale_token", s!"the expired token {pre.atok} was forwarded")] else []) ++
       (if fkind.startsWith "idp4xx" && contacted > 0 && handler == "proxy" && wrote then [("C11.rejected_refresh_still_auth", "provider rejected the refresh token, request still forwarded with a token")] else []) ++
